@@ -55,13 +55,27 @@ pub fn gen_verdict(src: &mut Src, lossy: u32) -> Verdict {
     }
 }
 
+/// the id of the i-th node of a generated cluster
+pub fn styled_id(extreme: bool, i: usize) -> u8 {
+    if !extreme {
+        i as u8 + 1
+    } else if i % 2 == 0 {
+        255 - (i / 2) as u8
+    } else {
+        (i / 2) as u8
+    }
+}
+
 pub fn gen_nodes(src: &mut Src, max_nodes: usize) -> Vec<(u8, String)> {
     let n = 2 + src.below(max_nodes - 1);
     let two_dcs = src.chance(1, 4);
+    // node ids: 1, 2, 3 ... or (one cluster in three) from both ends of the id range: 255, 0, 254, 1 ... -- the greatest
+    // id is where `id + 1` wraps, the smallest where `id - 1` does (round 16, after the seeded change `C16q`)
+    let extreme = src.chance(1, 3);
     (0..n)
         .map(|i| {
             let dc = if two_dcs && i % 2 == 1 { "dc-b" } else { "dc-a" };
-            (i as u8 + 1, dc.to_string())
+            (styled_id(extreme, i), dc.to_string())
         })
         .collect()
 }
